@@ -704,9 +704,10 @@ class Evaluator:
                         outs.append(o)
                 return outs
             # statically known literal of length <= 4 : unroll
-            if it[0] in ("listlit", "tuplelit", "setlit") and len(it[1]) <= 6 and it[0] != "setlit":
+            lit_items = it[1] if it[0] in ("listlit", "tuplelit") else self._literal_items(it) if it[0] == "call" and it[1] in ("enumerate", "range") else None
+            if lit_items is not None and len(lit_items) <= 6 and not any(x[0] == "star" for x in lit_items):
                 live = [s0]
-                for x in it[1]:
+                for x in lit_items:
                     nxt = []
                     for s in live:
                         s1 = s.fork()
@@ -1653,6 +1654,12 @@ class Evaluator:
         return (h, a, b)
 
     def compare(self, op: ast.cmpop, a: Term, b: Term) -> Term:
+        if isinstance(op, (ast.In, ast.NotIn)) and a[0] == "const":
+            items = self._concrete_set_items(b)
+            if items is not None:
+                # a constant looked up in a collection of known constants
+                res = TRUE if a in items else FALSE
+                return res if isinstance(op, ast.In) else self.negate(res)
         if isinstance(op, ast.In):
             return ("in", a, b)
         if isinstance(op, ast.NotIn):
@@ -1750,6 +1757,44 @@ class Evaluator:
             t = t[2][0]
         if t[0] in ("listlit", "tuplelit") and not any(x[0] == "star" for x in t[1]):
             return list(t[1])
+        if t[0] == "call" and t[1] == "enumerate" and t[2] and len(t[2]) <= 2:
+            inner = self._literal_items(t[2][0])
+            start = dict(t[3]).get("start", t[2][1] if len(t[2]) == 2 else const(0))
+            if inner is not None and start[0] == "const" and isinstance(start[1], int):
+                return [("tuplelit", (const(start[1] + i), x)) for i, x in enumerate(inner)]
+        if t[0] == "call" and t[1] == "range" and 1 <= len(t[2]) <= 2 and all(a[0] == "const" and isinstance(a[1], int) for a in t[2]) and not t[3]:
+            vals = range(*[a[1] for a in t[2]])
+            if len(vals) <= 8:
+                return [const(v) for v in vals]
+        if t[0] == "comp" and t[1] in ("list", "gen") and len(t[3]) == 0:
+            return None
+        return None
+
+    def _concrete_set_items(self, t: Term, depth: int = 0) -> list | None:
+        """The elements of a set whose content is fully known (built from literals of constants), else None."""
+        if depth > 20:
+            return None
+        if t == EMPTY:
+            return []
+        if t[0] in ("setlit", "listlit", "tuplelit") and all(x[0] == "const" for x in t[1]):
+            return list(t[1])
+        if t[0] == "setof":
+            return self._concrete_set_items(t[1], depth + 1)
+        if t[0] == "call" and t[1] in ("set", "frozenset", "list", "tuple") and len(t[2]) <= 1 and not t[3]:
+            return [] if not t[2] else self._concrete_set_items(t[2][0], depth + 1)
+        if t[0] == "union":
+            out = []
+            for x in t[1:]:
+                r = self._concrete_set_items(x, depth + 1)
+                if r is None:
+                    return None
+                out.extend(r)
+            return out
+        if t[0] == "diff" and len(t) == 3:
+            a, b = self._concrete_set_items(t[1], depth + 1), self._concrete_set_items(t[2], depth + 1)
+            if a is None or b is None:
+                return None
+            return [x for x in a if x not in b]
         return None
 
     def isnone(self, x: Term) -> Term:
@@ -2411,6 +2456,9 @@ class Evaluator:
             items = self._literal_items(args[0])
             if items is not None:
                 return [(state, ("tuplelit" if name == "tuple" else "listlit", tuple(items)))]
+        if name == "next" and len(args) == 2 and not kwargs and args[0][0] in ("listlit", "tuplelit") and not any(x[0] == "star" for x in args[0][1]):
+            # next() of a generator whose elements are all known: its first element, or the default
+            return [(state, args[0][1][0] if args[0][1] else args[1])]
         if name == "len" and len(args) == 1:
             a = args[0]
             a0 = a
